@@ -19,7 +19,7 @@ func init() {
 	register(&Rule{ID: "ORD-14", Title: "StoreLogs: success implies the tail append succeeded; nothing can fail after it",
 		Props: []string{"C01", "C05", "C10"}, Floor: 3, Run: runORD14})
 	register(&Rule{ID: "ORD-15", Title: "writers hold writeMu and have awaited a pending rotation when they load the state",
-		Props: []string{"C03", "C06"}, Floor: 2, Run: runORD15})
+		Props: []string{"C03", "C06", "C04"}, Floor: 2, Run: runORD15})
 	register(&Rule{ID: "ORD-16", Title: "rotation hand-off: trigger sent with the await channel in place; every rotation iteration wakes the waiter",
 		Props: []string{"C03", "C10", "C14"}, Floor: 2, Run: runORD16})
 	register(&Rule{ID: "ORD-17", Title: "Open ends with the state stored, the orphan sweep done and the rotation goroutine started",
